@@ -93,6 +93,7 @@ def main():
     import importlib
     from sqv import hlib
     hlib.PARAM = spec.get("param")
+    hlib.TIER = spec.get("tier") or "quick"
     hlib.EXCLUDES = list(spec.get("excludes") or [])
     mod = importlib.import_module("sqv.harness." + spec["harness"])
     fn = getattr(mod, spec["fn"])
